@@ -22,7 +22,7 @@ func init() {
 			"x scripted activation draws {0, 0.25-ulp, 0.25, 1-ulp}^3 (the activation generator is scripted, all other generators stay real). Oracle (relational): one response entry per enabled bias " +
 			"in order echoing name/probability; a request with disabled entries == the request without them (bytes); for a fixed script the firing of enabled position i with probability p is invariant " +
 			"under every change of the other entries; monotone in p; p=1/absent always, p=0 never; a non-firing entry reports props:null and the response equals the one with p=0 there. " +
-			"Frequency clause: real generator, all seeds 0..4095 (thorough 0..65535) x 3 positions x p in {0.1,0.25,0.5,0.9}: |freq-p|<=0.03. " +
+			"Independence is additionally checked with the real generators (64 seeds, thorough 512, x 3 probability vectors x 5^3 assignments of bias kinds/seeds to the positions). Frequency clause: real generator, all seeds 0..4095 (thorough 0..65535) x 3 positions x p in {0.1,0.25,0.5,0.9}: |freq-p|<=0.03. " +
 			"distinct_nontrivial = distinct (script, firing pattern, list shape) with at least one enabled bias.",
 		Assume:   []string{"probability menu {0,0.25,1}; the draw menu brackets 0.25 from both sides; frequency is swept over a finite seed range"},
 		Run:      c08Run,
@@ -154,6 +154,14 @@ func c08List(c *Case) ([]c08Entry, []float64) {
 func c08Check(c *Case) []Violation {
 	if c.Kind == "frequency" {
 		return c08CheckFrequency(c)
+	}
+	if c.Kind == "real-independence" {
+		a, _ := c08ObserveRaw(asM(roundTrip(c.Req)), nil)
+		b, _ := c08ObserveRaw(asM(roundTrip(c.Params["reference_request"])), nil)
+		if a == nil || b == nil || fmt.Sprint(a.fired) != fmt.Sprint(b.fired) {
+			return []Violation{viol(c, "C08/independence-real-generator", "the two requests differ only in the other biases' kinds/props but fire at different positions")}
+		}
+		return nil
 	}
 	list, draws := c08List(c)
 	_, vs := c08CheckList(c, list, draws)
@@ -346,6 +354,57 @@ func c08Run(s *Shard) {
 			}
 		}
 	})
+	// independence with the REAL generators: for a fixed biasApplyRandomSeed and fixed probabilities per position, which
+	// positions fire must not depend on what the other biases are or on their own seeds/props
+	realKinds := []M{
+		{"name": "fatigue", "props": M{"function": "const", "params": M{"value": 0.125}, "randomSeed": 1}},
+		{"name": "fatigue", "props": M{"function": "const", "params": M{"value": 0.125}, "randomSeed": 2}},
+		{"name": "criteriaMixing", "props": M{"randomSeed": 7}},
+		{"name": "preferenceReversal", "props": M{"ratio": 0.34}},
+		{"name": "criteriaConcealment", "props": M{"randomSeed": 5, "referenceCriterionType": "randomUniform", "newCriterionRandomSeed": 3}},
+	}
+	probVecs := [][]float64{{1, 0.5, 0.5}, {0.5, 0.5, 0.5}, {-1, 0.25, 0.75}}
+	nSeeds := int64(64)
+	if !quick(s) {
+		nSeeds = 512
+	}
+	s.Bounds["real_generator_independence_seeds"] = nSeeds
+	for seed := int64(0); seed < nSeeds; seed++ {
+		if !s.Take() {
+			continue
+		}
+		for _, pv := range probVecs {
+			var first []bool
+			var firstReq M
+			Product([]int{len(realKinds), len(realKinds), len(realKinds)}, func(ki []int) {
+				var bs L
+				for pos, k := range ki {
+					b := M{"name": realKinds[k]["name"], "props": realKinds[k]["props"]}
+					if pv[pos] >= 0 {
+						b["applyProbability"] = pv[pos]
+					}
+					bs = append(bs, b)
+				}
+				req := c08Request(nil, seed)
+				req["biases"] = bs
+				c := &Case{Prop: "C08", Kind: "real-independence", Req: req, Params: M{"reference_request": firstReq}}
+				s.Evals++
+				s.Begin(c)
+				o, e := c08ObserveRaw(req, nil)
+				if o == nil {
+					s.Report([]Violation{viol(c, "C08/rejected", "request rejected: %s", e)})
+					return
+				}
+				if first == nil {
+					first, firstReq = o.fired, req
+					return
+				}
+				if fmt.Sprint(first) != fmt.Sprint(o.fired) {
+					s.Report([]Violation{viol(c, "C08/independence-real-generator", "biasApplyRandomSeed %d, probabilities %v: positions fire %v with these biases but %v with other biases at the same positions", seed, pv, o.fired, first)})
+				}
+			})
+		}
+	}
 	// frequency clause, real generator
 	maxSeed := int64(4096)
 	if !quick(s) {
